@@ -7,6 +7,7 @@ use std::io::{self, BufRead, Write};
 mod pure;
 mod smtp;
 mod pool;
+mod mime;
 mod oracles;
 
 pub fn hex(b: &[u8]) -> String {
